@@ -84,6 +84,7 @@ type obs struct {
 
 	tags     []string // coverage cells a generated case declares (plugin replies)
 	sessions int      // plugin processes started
+	ratio    float64  // time(4n)/time(n) of a scaling case
 }
 
 func (o *obs) set(c string) {
@@ -1228,6 +1229,8 @@ var targets = []*target{
 	{name: "DecryptKeyed", fn: targetDecryptKeyed, run: runDecryptKeyed, grammar: "keyed", fuzzExecs: execsDecrypt, quickN: 20000},
 	// driven by a scripted plugin process per input: no native fuzz target
 	{name: "PluginReplies", fn: targetPluginReplies, run: runPluginReplies, grammar: "plug", fuzzExecs: 0, quickN: 400},
+	// scaling in the NUMBER of stanzas: its own enumerated job, no mutations, no fuzzing
+	{name: "ManyStanzas", fn: targetManyStanzas, run: runManyStanzas, grammar: "scale", fuzzExecs: 0, quickN: 0},
 	{name: "UnwrapStanzas", fn: targetUnwrapStanzas, run: runUnwrapStanzas, grammar: "stanzas", fuzzExecs: execsMedium, quickN: 20000},
 }
 
